@@ -276,7 +276,9 @@ KnotsStep(ev) ==
                     IN Cand("C02", "knot.bothsides",
                            \A col \in 1..D : close(H(ev.out.lv[i][d + 1][col]), H(ev.out.rv[i + 1][d + 1][col]),
                                                    told(col, d, RMin(pr.T[i], pr.T[i + 1]))), info("lr", i, d))]
-        sd == Cand("C01", "knot.segdur", Len(ev.out.segdur) = N /\ \A i \in 1..N : H(ev.out.segdur[i]) = RNearest(RSub(o.bp[i + 1], o.bp[i])), info("sd", 0, 0))
+        \* (a segment's duration is the difference of its breakpoints, up to the rounding of however the implementation obtains it)
+        sd == Cand("C01", "knot.segdur", Len(ev.out.segdur) = N /\ \A i \in 1..N :
+                       RLe(RAbs(RSub(H(ev.out.segdur[i]), RSub(o.bp[i + 1], o.bp[i]))), RMul("2", UlpOfMax(o.bp[i + 1], o.bp[i]))), info("sd", 0, 0))
         cands == <<sd>> \o (IF w THEN kpos \o lpos \o rpos \o bstart \o bend \o both ELSE <<>>)
     IN StepRec(cands, <<"knot_queries">>, memo, obs)
 TrKnots == IsEvent("knots") /\ sc' = KnotsStep(Ev) /\ Query(Ev.obj, "knots") /\ Record
